@@ -154,7 +154,7 @@ def run(chk):
             S = size_ty(sname)
             for T, AT, sym in (('structures::paging::page::Page', VA, 'v'), ('structures::paging::frame::PhysFrame', PA, 'p')):
                 short = T.split('::')[-1]
-                pg = Struct(T, [Struct(AT, [BV(64, [0] * sb + sl(sym, sb, 64))]), Struct('tuple', ())])
+                pg = I.newtype(T, Struct(AT, [BV(64, [0] * sb + sl(sym, sb, 64))]))
                 fn_ = T + '::<S>::size'
                 o = r1(fn_, [pg], {'S': S})
                 chk.ob('containing', '%s<%s>::size() = %#x' % (short, sname, 1 << sb), len(o) == 1 and o[0].kind == 'ret' and isinstance(o[0].val, BV) and o[0].val.is_const() and o[0].val.value() == 1 << sb,
